@@ -810,10 +810,12 @@ def run(R):
         if sizes != mine:
             R.fail('correspondence', {'stream': 'tables'}, {'why': 'the tables compiled into the model differ from the tables of the running package', 'model': sizes, 'now': mine})
             return
-    stream_versioned_dict(R, VersionedDict)
-    stream_dispatch(R, T)
-    stream_patches(R, T)
-    stream_protocol(R, T)
+    for fn, args in ((stream_versioned_dict, (R, VersionedDict)), (stream_dispatch, (R, T)), (stream_patches, (R, T)), (stream_protocol, (R, T))):
+        try:
+            fn(*args)
+        except Exception:                 # keep going: another stream may still find the failing input
+            import traceback
+            R.fail('correspondence', {'stream': fn.__name__}, {'why': 'stream crashed', 'trace': traceback.format_exc()[-1500:]})
 
 
 def replay(R, case):
